@@ -68,12 +68,17 @@ impl std::fmt::Display for Version {
 
 impl SerializableType for Version {
     fn serialize<O: DataOutput>(&self, output: &mut O) -> Result<()> {
-        output.write_u32(self.to_u32())
+        // The fields are u16; the packed u32 form has only 8 bits for major and minor
+        output.write_u16(self.major)?;
+        output.write_u16(self.minor)?;
+        output.write_u16(self.patch)
     }
     
     fn deserialize<I: DataInput>(input: &mut I) -> Result<Self> {
-        let packed = input.read_u32()?;
-        Ok(Version::from_u32(packed))
+        let major = input.read_u16()?;
+        let minor = input.read_u16()?;
+        let patch = input.read_u16()?;
+        Ok(Version::new(major, minor, patch))
     }
 }
 
